@@ -35,9 +35,10 @@
 use super::NarseseFormat;
 use crate::{
     api::UIntPrecision,
+    conversion::string::char_slice_starts_with_str,
     lexical::{Budget, Narsese, Sentence, Task, Term, Truth},
 };
-use nar_dev_utils::{PrefixMatch, StartsWithStr, SuffixMatch};
+use nar_dev_utils::{PrefixMatch, SuffixMatch};
 use std::{error::Error, fmt::Display};
 
 /// 词法解析 辅助结构对象
@@ -774,12 +775,12 @@ impl ParseState<'_> {
         term_begin += term_len;
         loop {
             // 右括弧⇒跳过，结束
-            if env[term_begin..].starts_with_str(right) {
+            if char_slice_starts_with_str(&env[term_begin..], right) {
                 right_border = term_begin + right.chars().count();
                 break;
             }
             // 分隔符⇒跳过
-            if env[term_begin..].starts_with_str(&self.format.compound.separator) {
+            if char_slice_starts_with_str(&env[term_begin..], &self.format.compound.separator) {
                 term_begin += self.format.compound.separator.chars().count();
             }
             // 解析一个词项
@@ -826,12 +827,12 @@ impl ParseState<'_> {
         let right_border;
         loop {
             // 右括弧⇒跳过，结束
-            if env[term_begin..].starts_with_str(right) {
+            if char_slice_starts_with_str(&env[term_begin..], right) {
                 right_border = term_begin + right.chars().count();
                 break;
             }
             // 分隔符⇒跳过
-            if env[term_begin..].starts_with_str(&self.format.compound.separator) {
+            if char_slice_starts_with_str(&env[term_begin..], &self.format.compound.separator) {
                 term_begin += self.format.compound.separator.chars().count();
             }
             // 解析一个词项
@@ -893,7 +894,7 @@ impl ParseState<'_> {
 
         // 跳过右括弧 //
         let right_bracket_start = predicate_start + relative_len;
-        let right_border = match env[right_bracket_start..].starts_with_str(right) {
+        let right_border = match char_slice_starts_with_str(&env[right_bracket_start..], right) {
             true => right_bracket_start + right.chars().count(),
             false => return self.err(env, "未匹配到右括弧"),
         };
